@@ -17,11 +17,11 @@ def fxy(d):
     return '%d' % (d // 100000), '%02d' % ((d // 1000) % 100), '%03d' % (d % 1000)
 
 
-def definition_values(a_entries, b_entries, d_entries):
+def definition_values(a_entries, b_entries, d_entries, fixed_a=False):
     """flat value list of a definition message in template order.
     a_entries: [(entry, line1, line2)]; b_entries: [(id, name, unit, scale, reference, width)];
     d_entries: [(id, name, [member ids])]"""
-    v = [len(a_entries)]
+    v = [] if fixed_a else [len(a_entries)]
     for e in a_entries:
         v += [s.encode() for s in e]
     v.append(len(b_entries))
@@ -46,20 +46,23 @@ def queue_chooser(values):
     return ch
 
 
-def build_definition(a_entries, b_entries, d_entries, edition=3, nsub=1, master_version=13):
-    """-> bytes of the definition message (character fields blank padded by the reference encoder)"""
+def build_definition(a_entries, b_entries, d_entries, edition=3, nsub=1, master_version=13, fixed_a=False):
+    """-> bytes of the definition message (character fields blank padded by the reference encoder).
+    fixed_a: the Table A part is a FIXED replication (1 03 00n, no count in the data) - needs at least one Table A line"""
     B, D = tables.load(master_version)
-    vals = definition_values(a_entries, b_entries, d_entries)
+    fixed_a = fixed_a and len(a_entries) > 0
+    vals = definition_values(a_entries, b_entries, d_entries, fixed_a)
+    DEF = ([103000 + len(a_entries)] + DEF_DESCS[2:]) if fixed_a else DEF_DESCS
     if nsub == 0:
         from mc.ref.bits import BitBuf
         buf = BitBuf()
     else:
-        buf, subs, notes, nb = codec.encode(B, D, DEF_DESCS, 1, False, queue_chooser(vals))
+        buf, subs, notes, nb = codec.encode(B, D, DEF, 1, False, queue_chooser(vals))
     spec = message.Spec(edition=edition, meta={'data_category': 11, 'data_local_subcategory': 1, 'originating_centre': 7,
                                                'originating_subcentre': 3, 'master_table_version': master_version,
                                                'local_table_version': 1, 'year': 0, 'month': 0, 'day': 0, 'hour': 0,
                                                'minute': 0, 'second': 0},
-                        descs=DEF_DESCS, nsub=nsub, compressed=False)
+                        descs=DEF, nsub=nsub, compressed=False)
     return message.build(spec, buf)[0]
 
 
